@@ -37,6 +37,7 @@ type ProxyParams struct {
 	Envs      []PEnv     `json:"envs"`
 	Icpt      int        `json:"icpt"`       // 0 none, 1 identity, 2 alias->first server, 3 reject names ending in x
 	Credit    int        `json:"credit"`     // max envelopes outstanding per destination (0: unlimited)
+	ErrKind   int        `json:"err_kind,omitempty"` // which error the failing link reports (InjectedErr)
 	FailAt    int        `json:"fail_at"`    // role faults fire after this many envelopes were sent
 	Reattach  int        `json:"reattach"`   // 0 no, 1 re-attach the bad peer's name before its old connection fails, 2 after
 	CancelAt  int        `json:"cancel_at"`  // >0: cancel the proxy's context after this many driver steps of traffic
@@ -147,6 +148,7 @@ func genProxyRaw(hostile bool) func(g *rand.Rand, tier string) any {
 			n = len(p.Envs)
 		}
 		p.FailAt = g.IntN(n + 1)
+		p.ErrKind = g.IntN(NumInjectedErrs)
 		return p
 	}
 }
@@ -380,12 +382,12 @@ func execProxyRaw(e *Env, pp any) {
 			}
 			switch rp.spec.Role {
 			case 2:
-				rp.first.Out.FailRead(ErrInjected) // the proxy's read from this peer fails
+				rp.first.Out.FailRead(InjectedErr(p.ErrKind)) // the proxy's read from this peer fails
 				failed[n] = true
 				badFailedGen = 0
 				e.Note("fault.link.readFail")
 			case 3:
-				rp.first.In.FailWrite(ErrInjected) // the proxy's write to this peer fails
+				rp.first.In.FailWrite(InjectedErr(p.ErrKind + 1)) // the proxy's write to this peer fails
 				failed[n] = true
 				badFailedGen = 0
 				e.Note("fault.link.writeFail")
